@@ -251,8 +251,9 @@ func c15EncodeAst(ast *syntax.Ast) (string, error) {
 			e.tok(c15Key(h[0]), c15Key(h[1]))
 		}
 	}
-	e.tok("T", strconv.Itoa(len(ast.StructTypes)))
-	for _, st := range ast.StructTypes {
+	structs := c15StructTable(ast)
+	e.tok("T", strconv.Itoa(len(structs)))
+	for _, st := range structs {
 		e.tok(c15Key(st.Id), strconv.Itoa(len(st.Members)))
 		for _, m := range st.Members {
 			t := m.Tname
@@ -1102,7 +1103,8 @@ func c15Edits() []c15Edit {
 		"reorder-declarations": "-", "reorder-parameters": "-", "reorder-bindings": "-", "unused-callable": "-", "number-spelling": "-",
 		"filetype-rename": "fileTypeName", "volatile-flag": "volatile", "stage-renamed-call-aliased": "calleeName",
 		"stage-src": "stageSrc", "stage-resources": "resources", "stage-retain": "retain", "chunk-params": "chunkParams",
-		"parameter-help": "help", "stage-output-filename": "outName", "pipeline-retain": "retain", "struct-definition": "structDef"}
+		"parameter-help": "help", "stage-output-filename": "outName", "pipeline-retain": "retain"}
+	E = append(E, c15TypeCatalogueEdits()...)
 	for i := range E {
 		E[i].kinds = expect[E[i].name]
 	}
@@ -1436,6 +1438,8 @@ func runC15(c *Ctx) {
 		}
 		// literal-shrinking / -growing classes (own original: harness/c15_lit.go)
 		pairs = append(pairs, c15LiteralPairs(c, p, newDir)...)
+		// struct definitions changing under an unchanged name (own original: harness/c15_types.go)
+		pairs = append(pairs, c15StructPairs(c, p, newDir)...)
 		// the tolerance class
 		q := p.clone()
 		if desc, inTop, ok := c15UlpEdit(c.Rng, q); ok {
@@ -1471,7 +1475,7 @@ func runC15(c *Ctx) {
 			continue
 		}
 		f := strings.Fields(reps[i])
-		if len(f) != 5 {
+		if len(f) != 6 {
 			r.violate(Violation{Kind: "correspondence", Key: "C15:driver-parse", What: "driver could not parse the encoded AST: " + reps[i],
 				Input: input, Broken: "correspondence C15.equiv (encoding)"})
 			continue
@@ -1485,17 +1489,17 @@ func runC15(c *Ctx) {
 				What:  fmt.Sprintf("the model's full meaning differs in the ignored aspects {%s}, the edit class changes {%s}: %s", f[4], pr.kinds, pr.desc),
 				Input: input, Model: f[4], Expect: pr.kinds, Broken: "Martian.Equiv.meaning (ignored component) vs edit catalogue"})
 		}
-		if pr.edit == "struct-definition" {
-			// only the struct's NAME is compared: a changed definition is accepted
-			if fmt.Sprint(gab) != f[0] {
+		if key, ok := c15StricterThanProperty[pr.edit]; ok {
+			// cosmetic for the property, compared by the code: model = code, the refusal is a (known) finding
+			if fmt.Sprint(gab) != f[0] || gab != gba {
 				r.violate(Violation{Kind: "correspondence", Key: "C15:equiv-model-mismatch:" + pr.edit,
-					What: "Ast.EquivalentCall differs from the Lean model: " + pr.desc, Input: input, Impl: gab, Model: f[0],
+					What: "Ast.EquivalentCall differs from the Lean model (or is asymmetric): " + pr.desc, Input: input, Impl: []bool{gab, gba}, Model: f[0],
 					Broken: "correspondence C15.equiv"})
 			}
-			if gab || gba {
-				r.violate(Violation{Kind: "property", Key: "C15:struct-definition-ignored",
-					What:  "a changed struct definition (a parameter's type changed under an unchanged type name) is accepted as equivalent: " + pr.desc,
-					Input: input, Impl: []bool{gab, gba}, Expect: false})
+			if !gab || !gba {
+				r.violate(Violation{Kind: "property", Key: key,
+					What:  "an edit the property counts as cosmetic is refused: " + pr.desc,
+					Input: input, Impl: []bool{gab, gba}, Expect: true})
 			}
 			continue
 		}
@@ -1551,7 +1555,7 @@ func runC15(c *Ctx) {
 			break
 		}
 		pr := pairs[i]
-		if pr.inTop || pr.edit == "float-ulp" || pr.edit == "struct-definition" || pr.pa == nil {
+		if pr.inTop || pr.edit == "float-ulp" || c15StricterThanProperty[pr.edit] != "" || pr.pa == nil {
 			continue // the top-level invocation text itself must be byte-identical (see below)
 		}
 		done++
@@ -1568,7 +1572,7 @@ func runC15(c *Ctx) {
 			break
 		}
 		pr := pairs[i]
-		if pr.inTop || !pr.semantic || pr.edit == "float-ulp" || pr.edit == "struct-definition" || pr.pa == nil {
+		if pr.inTop || !pr.semantic || pr.edit == "float-ulp" || pr.pa == nil {
 			continue
 		}
 		crashed++
